@@ -268,8 +268,8 @@ def run(ctx):
         reject = rng.choice([0, 1, 2, 3, 4, 8, 16])
         cc = rng.choice([-1.0, -2.0, -3.0, 1.0, 2.0, 0.25, -0.5])
         th0 = rng.choice([1.0, -2.0, 3.0, 0.5, -1.5, 2.5])
-        script, classes = gen_script_quad(rng, c, cc, th0, reject)
         ncalls = rng.choice([5, 10, 30])
+        script, classes = gen_script_quad(rng, c, cc, th0, reject, n=min(120, ncalls * (reject + 1) + 2))      # a run makes at most ncalls * (reject + 1) solves
         obs = run_scripted(pp, torch, c, reject, th0, script, ncalls, quad=cc)
         ctx.case(('lmq', kind, reject, th0, cc, tuple(script[:40])), nontrivial=True, branch='lm-nonlinear-kind%d' % kind)
         ctx.count('nonlinear-universe-requested-' + ('has-USU' if 'USU' in classes else 'no-USU') + ('-has-0/0' if 'N' in classes else ''))
